@@ -1542,6 +1542,10 @@ void run_problem(Fix& fix, Config const& c)
              + std::to_string(r.queued) + " " + std::to_string(r.active) + " "
              + std::to_string(r.alive) + " | " + std::to_string(cnt.num_initializers) + " "
              + std::to_string(cnt.num_vacancies) + " " + std::to_string(cnt.num_secondaries));
+        // flush per iteration: a crash in a later iteration must not lose the log so far
+        std::fwrite(out.data(), 1, out.size(), stdout);
+        std::fflush(stdout);
+        out.clear();
     };
 
     std::string verdict = "done";
